@@ -17,13 +17,13 @@ CHECKS = {
             "Trusted: Lean kernel, AVM spec (Avm/*.lean), source semantics (Src.lean), recipe builders; subroutines are covered by C02, options by C03.",
             "DESIGN.md Part II C01"),
     "C02": ("translation_validation",
-            "Lean 4: end-to-end theorem compile_correct_validated_prog (source semantics vs the REAL TEAL whenever the decidable hypothesis composedOk holds; evaluated per program) = universal code-generation theorem genProg_correct (Src.runProg vs the multi-routine graph machine, for every program of the decidable fragment inFragmentC: calls in operand/statement position, recursion with spill/restore, BOTH calling conventions for by-value parameters, by-reference parameters under the scratch-slot convention) + proven-sound whole-program certificate checker (simR_sound: routine graphs of the code-generation model incl. prologues, frame_dig parameters, callsub with spill/restore, retsub vs the real TEAL, all contexts) + universal spill theorem tied to the real function on an exhaustive grid; differential execution against the source semantics; families and random ABI call graphs with independently computed verdicts",
+            "Lean 4: end-to-end theorem compile_correct_validated_prog (source semantics vs the REAL TEAL whenever the decidable hypothesis composedOk holds; evaluated per program) = universal code-generation theorem genProg_correct (Src.runProg vs the multi-routine graph machine, for every program of the decidable fragment inFragmentC: calls in operand/statement position, recursion with spill/restore, BOTH calling conventions, by-value and by-reference parameters) + proven-sound whole-program certificate checker (simR_sound: routine graphs of the code-generation model incl. prologues, frame_dig parameters, callsub with spill/restore, retsub vs the real TEAL, all contexts) + universal spill theorem tied to the real function on an exhaustive grid; differential execution against the source semantics; families and random ABI call graphs with independently computed verdicts",
             "Call-graph programs (self/mutual recursion, by-value/by-reference parameters, none/uint64/bytes/anytype/ABI results, calls in operand "
             "position, early Return) are compiled by the real compiler for versions 4..10 x frame_pointers x scratch_slots; the real TEAL is related "
             "to the model's routine graphs by a checked certificate and executed on the Lean AVM spec against the Lean source semantics on generated "
             "contexts. For programs inside inFragmentR (reported per run) the model graphs are PROVED to mean what the source program means.",
             "Trusted: AVM frame rules (callsub/retsub/proto/frame_dig/frame_bury), the source semantics of calls in Src.lean. Not proved (executed "
-            "only): by-reference parameters under frame pointers, ABI outputs, the optimiser, invariance of the "
+            "only): ABI outputs, WideRatio inside call graphs, the optimiser, invariance of the "
             "source semantics under the bijective variable renaming, ABI subroutines.",
             "DESIGN.md Part II C02"),
     "C03": ("proof",
